@@ -273,6 +273,9 @@ func (w *World) atomOf(v ssa.Value) (atom, bool) {
 			switch {
 			case pk == "bytes" && f.Name() == "Equal" && len(cc.Args) == 2:
 				return mkAtom(w.Canon(cc.Args[0]), relEQ, w.Canon(cc.Args[1])), true
+			case pk == "errors" && f.Name() == "Is" && len(cc.Args) == 2 && w.errorsIsIsIdentity():
+				// no error type of the module has an Is or Unwrap method: errors.Is(a, b) is a == b
+				return mkAtom(w.Canon(cc.Args[0]), relEQ, w.Canon(cc.Args[1])), true
 			case pk == "github.com/holiman/uint256" && len(cc.Args) == 2:
 				switch f.Name() {
 				case "Lt":
@@ -291,6 +294,24 @@ func (w *World) atomOf(v ssa.Value) (atom, bool) {
 		return mkAtom(w.Canon(v), relEQ, "true"), true
 	}
 	return atom{}, false
+}
+
+// errorsIsIsIdentity: no method named Is or Unwrap is declared on a module type
+// that has an Error method, so errors.Is on the module's errors compares identity.
+func (w *World) errorsIsIsIdentity() bool {
+	if w.errIsMemo != 0 {
+		return w.errIsMemo > 0
+	}
+	w.errIsMemo = 1
+	for _, f := range w.ModuleFuncs() {
+		if f.Signature.Recv() == nil || (f.Name() != "Is" && f.Name() != "Unwrap") {
+			continue
+		}
+		if n := derefNamed(f.Signature.Recv().Type()); n != nil && methodOfNamed(w, n, "Error") != nil {
+			w.errIsMemo = -1
+		}
+	}
+	return w.errIsMemo > 0
 }
 
 // signSet: the relations s in {<,=,>} (as -1,0,1) for which  s <rel> k  holds
